@@ -157,3 +157,55 @@ def func_of(v):
     if isinstance(v, S.FuncVal):
         return v.finfo
     return None
+
+
+class Instance:
+    """One folded (class, order) -> RSL, or a splitting-function factory -> RSL."""
+
+    def __init__(self, construct, site, rsl, cinfo=None, order=None, label=None, method=None):
+        self.construct = construct
+        self.site = site
+        self.rsl = rsl
+        self.cinfo = cinfo
+        self.order = order
+        self.label = label
+        self.method = method
+
+
+def all_instances(proj, ev, sym, rep=None, rule="model"):
+    """Fold every (channel class x order) and every splitting factory.
+
+    Returns (instances, problems) where problems = [(construct, site, reason)].
+    """
+    out, problems = [], []
+    for c in channel_classes(proj):
+        try:
+            obj = instantiate(ev, c, sym)
+        except (Undecided, S.Raised) as e:
+            problems.append((c.fq, c.site, f"class not instantiable on its own: {e}", "abstract"))
+            continue
+        for k in range(4):
+            r = fold_order(ev, obj, k)
+            if r.status in ("none", "empty"):
+                continue
+            construct = f"{c.fq}.{ORDER_METHODS[k]}"
+            msite = r.method.site if r.method is not None else c.site
+            if r.status in ("undecided", "raised"):
+                if c.name.startswith("PartonicChannelAsy") and "TypeError" in r.reason:
+                    continue  # abstract intrinsic bases carrying the placeholder light_cls
+                problems.append((construct, msite, f"order method not foldable: {r.reason}", "order"))
+                continue
+            out.append(Instance(construct, msite, r.rsl, cinfo=c, order=k, method=r.method))
+    split = proj.module(f"{CF}.splitting_functions")
+    raw_labels = ev.module_global(split, "raw_labels")
+    for order_labels in raw_labels:
+        for label, fnc in order_labels.items():
+            construct = f"{fnc.finfo.fq}[{label}]" if isinstance(fnc, S.FuncVal) else f"splitting[{label}]"
+            site = fnc.finfo.site if isinstance(fnc, S.FuncVal) else split.relpath
+            try:
+                rsl = ev.call(fnc, [sym.nf], {})
+            except (Undecided, S.Raised) as e:
+                problems.append((construct, site, f"factory not foldable: {e}", "split"))
+                continue
+            out.append(Instance(construct, site, rsl, label=label))
+    return out, problems
